@@ -7,46 +7,58 @@ REL_KEYS = {"full": "check-differs-from-specification (kind / custom message / f
             "report-badjson": "report-not-json", "report-panic": "report-builder-panic", "report-err": "report-error"}
 
 
+def report_file(res, tr, n, label, relations, min_share=10):
+    """TraceReport over one recorded trace file (lines of record-eval --full)"""
+    r = tlc("TraceReport", env={"TRACE": tr}, workers=1, timeout=3000, tag="trep" + res.prop, heap="6g")
+    if "TRACE-REJECTED" in r["out"] or not r["ok"]:
+        log(r["out"][-3000:])
+        raise ToolError("TraceReport did not consume the whole trace")
+    lines = open(tr).read().split("\n")
+    res.add("states", r["distinct"])
+    res.add("transitions", r["states"])
+    verdicts = judge_lines(r["out"])
+    if len(verdicts) != n:
+        raise ToolError("TraceReport judged %d of %d lines" % (len(verdicts), n))
+    rel = tlc_tuples(r["out"], "RELATE")
+    seen = {}
+    for t in rel:
+        i, verdict, name = t[1], t[2], t[3]
+        if name not in relations and not name.startswith("report-"):
+            continue
+        seen[name] = seen.get(name, 0) + 1
+        res.add("relations_checked")
+        if verdict == "ok":
+            continue
+        line = json.loads(lines[i - 1])
+        res.violation(REL_KEYS.get(name, name), {"line": line, "relation": name,
+                                                  "rendered": gv(["render"], input=json.dumps(line))[:6000]})
+    for (i, verdict, payloads) in verdicts:
+        if verdict == "ok":
+            res.add("traces_validated_against_impl")
+        if i == 2:
+            line = json.loads(lines[i - 1])
+            res.sample({"prog": line["prog"], "doc": line["doc"], "report": line["obs"].get("report")})
+    res.cov.setdefault("relations", {})[label] = seen
+    for need in relations:
+        if seen.get(need, 0) < n // min_share:
+            raise ToolError("relation %s evaluated on too few lines (vacuous)" % need)
+
+
 def report_trace(res, tier, n, cfgs, relations, seed_mul=49979687):
     total = 0
     for ci, cfg in enumerate(cfgs):
         tr = os.path.join(WORK, "trace_%s_report_%s.ndjson" % (res.prop, cfg))
         gv(["record-eval", "--seed", seed() * seed_mul + ci, "--n", n, "--cfg", cfg, "--full", 1, "--out", tr])
-        r = tlc("TraceReport", env={"TRACE": tr}, workers=1, timeout=3000, tag="trep" + res.prop, heap="6g")
-        if "TRACE-REJECTED" in r["out"] or not r["ok"]:
-            log(r["out"][-3000:])
-            raise ToolError("TraceReport did not consume the whole trace")
-        lines = open(tr).read().split("\n")
-        res.add("states", r["distinct"])
-        res.add("transitions", r["states"])
-        verdicts = judge_lines(r["out"])
-        if len(verdicts) != n:
-            raise ToolError("TraceReport judged %d of %d lines" % (len(verdicts), n))
-        rel = tlc_tuples(r["out"], "RELATE")
-        seen = {}
-        for t in rel:
-            i, verdict, name = t[1], t[2], t[3]
-            if name not in relations and not name.startswith("report-"):
-                continue
-            seen[name] = seen.get(name, 0) + 1
-            res.add("relations_checked")
-            if verdict == "ok":
-                continue
-            line = json.loads(lines[i - 1])
-            res.violation(REL_KEYS.get(name, name), {"line": line, "relation": name,
-                                                      "rendered": gv(["render"], input=json.dumps(line))[:6000]})
-        for (i, verdict, payloads) in verdicts:
-            if verdict == "ok":
-                res.add("traces_validated_against_impl")
-            if i == 2:
-                line = json.loads(lines[i - 1])
-                res.sample({"prog": line["prog"], "doc": line["doc"], "report": line["obs"].get("report")})
-        res.cov.setdefault("relations", {})[cfg] = seen
-        for need in relations:
-            if seen.get(need, 0) < n // 10:
-                raise ToolError("relation %s evaluated on too few lines (vacuous)" % need)
+        report_file(res, tr, n, cfg, relations)
         total += n
         os.remove(tr)
+    # the variable-key family (`map.%v...`), enumerated
+    tr = os.path.join(WORK, "trace_%s_report_vkey.ndjson" % res.prop)
+    gv(["record-vkey", "--full", 1, "--out", tr])
+    nv = sum(1 for l in open(tr) if l.strip())
+    report_file(res, tr, nv, "vkey", relations, min_share=20)
+    total += nv
+    os.remove(tr)
     res.add("evaluations", total)
 
 
